@@ -44,6 +44,13 @@ func TestSweep(t *testing.T) {
 			}
 		}
 	}
+	// very long appends (beyond 65536 samples), in place and growing
+	for i, tn := range []string{"int8", "float32", "int64"} {
+		C := 1 + i
+		fr := (65536+7)/C + 1
+		Oracle.One(t, env, rec, "sweep", &Case{T: tn, C: C, Kr: 2*fr + 5, A: 1, B: 3, Srcs: []Src{{Kind: "sep", Kr: fr + 1, A: 1, B: fr + 1}, {Kind: "sep", Kr: fr + 3, A: 0, B: fr + 3}}})
+		Oracle.One(t, env, rec, "sweep", &Case{T: tn, C: C, Kr: fr, A: 0, B: fr, Srcs: []Src{{Kind: "self"}}})
+	}
 	// wide frames (16, 32, 64, 65 channels): growth lands on runtime size classes that need not be multiples of the frame
 	for _, tn := range []string{"int8", "int32", "float64", "uint64"} {
 		for _, C := range []int{16, 32, 64, 65} {
